@@ -23,8 +23,29 @@ class Func:
         return "<Func %s>" % self.qual
 
 
+# the functions the rules know by name (the anchors of properties.jsonl and their documented helpers, as confirmed by reading the pinned
+# tree).  A function of the package that is *not* in this table is unknown to the rules and is analysed as part of its callers (see
+# norm.inline_function); a function of this table that disappears makes the anchoring rule fail closed as before.
+KNOWN_FUNCTIONS = frozenset("""
+__init__.dump __init__.dumps __init__.load __init__.loads
+auxiliary._expression auxiliary._func auxiliary._get_arguments auxiliary._literal auxiliary._number
+error.BlackbirdErrorListener.syntaxError error.NoTraceBack.__init__
+listener.BlackbirdListener.__init__ listener.BlackbirdListener.enterForloop listener.BlackbirdListener.enterProgram
+listener.BlackbirdListener.enterStart listener.BlackbirdListener.exitArrayvar listener.BlackbirdListener.exitDeclarename
+listener.BlackbirdListener.exitDeclaretype listener.BlackbirdListener.exitExpressionvar listener.BlackbirdListener.exitForloop
+listener.BlackbirdListener.exitInclude listener.BlackbirdListener.exitProgram listener.BlackbirdListener.exitStatement
+listener.BlackbirdListener.exitTarget listener.BlackbirdListener.exitVersion listener.BlackbirdListener.program
+listener.RegRefTransform.__init__ listener.RegRefTransform.__str__ listener.is_ptype listener.parse
+program.BlackbirdProgram.__call__ program.BlackbirdProgram.__init__ program.BlackbirdProgram.__len__ program.BlackbirdProgram.is_template
+program.BlackbirdProgram.modes program.BlackbirdProgram.name program.BlackbirdProgram.operations program.BlackbirdProgram.parameters
+program.BlackbirdProgram.programtype program.BlackbirdProgram.serialize program.BlackbirdProgram.target program.BlackbirdProgram.variables
+program.BlackbirdProgram.version program.list_to_blackbird program.numpy_to_blackbird program.sympy_to_blackbird
+utils.match_template utils.to_DiGraph
+""".split())
+
+
 class Index:
-    def __init__(self, rep=None, modules=HAND, sources=None):
+    def __init__(self, rep=None, modules=HAND, sources=None, inline=True):
         """sources: optional dict module name -> source text (used by the positive controls and the self-test)"""
         self.mods = {}
         self.src = {}
@@ -66,6 +87,24 @@ class Index:
                         if isinstance(f, (ast.FunctionDef, ast.AsyncFunctionDef)):
                             q = "%s.%s.%s" % (m, n.name, f.name)
                             self.funcs[q] = Func(m, q, f, cls="%s.%s" % (m, n.name))
+        # analysis normal form: simple helpers are inlined into their callers (statement level), so that extracting a block of a handler
+        # into a private function does not change what the structural rules see; the originals are kept as .orig
+        if inline:
+            from . import norm
+            originals = {q: f.node for q, f in self.funcs.items()}
+            for q, f in self.funcs.items():
+                f.orig = originals[q]
+            new = {}
+            for q, f in self.funcs.items():
+                try:
+                    new[q] = norm.desugar_match(norm.inline_function(self, f, keep=KNOWN_FUNCTIONS))
+                    new[q] = norm.unroll_const_loops(new[q], self.module_globals(f.mod), self.single_assigned(f.mod))
+                    new[q] = norm.propagate_templates(new[q])
+                except RecursionError:
+                    new[q] = f.node
+            for q, f in self.funcs.items():
+                f.orig = originals[q]
+                f.node = new[q]
         # nested import inside functions (e.g. serialize imports NUMPY_TYPES lazily)
         for q, f in self.funcs.items():
             for n in ast.walk(f.node):
@@ -118,6 +157,23 @@ class Index:
         rel = PKG + f.mod + ".py"
         ln = getattr(node, "lineno", f.node.lineno)
         return "%s:%d %s" % (rel, ln, f.qual)
+
+    def single_assigned(self, mod):
+        """module-level names bound exactly once in the module and never rebound / augmented / declared global in a function"""
+        count = {}
+        for n in ast.walk(self.mods[mod]):
+            if isinstance(n, ast.Name) and isinstance(n.ctx, (ast.Store, ast.Del)):
+                count[n.id] = count.get(n.id, 0) + 1
+            elif isinstance(n, ast.Global):
+                for x in n.names:
+                    count[x] = count.get(x, 0) + 2
+        top = set()
+        for n in self.mods[mod].body:
+            if isinstance(n, (ast.Assign, ast.AnnAssign)):
+                for t in (n.targets if isinstance(n, ast.Assign) else [n.target]):
+                    if isinstance(t, ast.Name):
+                        top.add(t.id)
+        return frozenset(x for x in top if count.get(x) == 1)
 
     def module_globals(self, mod):
         """module-level simple assignments name -> value node"""
